@@ -772,6 +772,7 @@ static int KCBN;
 static bool KCB_BROKEN;
 static struct spki_table *CUR_KT;
 static uint32_t COLLIDE_ASN[8]; /* AS numbers whose tommy_inthash_u32 agree in the low 10 bits */
+static int WIDE_ASN; /* > 0: most keys draw their AS number from 1..WIDE_ASN so that all buckets get used */
 static uint8_t SKIS[5][SKI_SIZE];
 
 static bool mkey_eq(const struct mkey *a, const struct mkey *b)
@@ -852,7 +853,10 @@ static void find_colliding_asns(void)
 static void gen_key(struct rng *r, struct mkey *k, int variety)
 {
 	memset(k, 0, sizeof(*k));
-	k->asn = rndp(r, 3, 4) ? COLLIDE_ASN[rndn(r, 8)] : 1 + rndn(r, 5);
+	if (WIDE_ASN && rndp(r, 7, 8))
+		k->asn = 1000 + rndn(r, (uint32_t)WIDE_ASN);
+	else
+		k->asn = rndp(r, 3, 4) ? COLLIDE_ASN[rndn(r, 8)] : 1 + rndn(r, 5);
 	memcpy(k->ski, SKIS[rndn(r, 5)], SKI_SIZE);
 	uint32_t v = rndn(r, (uint32_t)variety);
 
@@ -938,6 +942,14 @@ static void check_spki_lookups(struct spki_table *t, const char *after, struct r
 			asn = rndp(r, 3, 4) ? COLLIDE_ASN[rndn(r, 8)] : 1 + rndn(r, 6);
 			s = (int)rndn(r, 5);
 		}
+		if (WIDE_ASN && KN && !rndp(r, 1, 5)) {
+			/* a pair that is present (most probes) */
+			const struct mkey *mk = &K[rndn(r, (uint32_t)KN)];
+
+			asn = mk->asn;
+			for (s = 0; s < 4 && memcmp(SKIS[s], mk->ski, SKI_SIZE); s++)
+				;
+		}
 		struct spki_record *res = NULL;
 		unsigned int n = 0;
 		int nw = 0, ng = 0;
@@ -976,7 +988,11 @@ static void run_spki_case(struct rng *r, long c)
 	static const int TARGETS[] = {8, 20, 40, 70, 140, 270, 530, 1100};
 	int target = TARGETS[c % 8];
 	int variety = target / 3 + 4;
-	int nops = target * 2 + 20 + (int)rndn(r, 40);
+	bool sawtooth = (c / 8) % 2 == 1;
+	int saw_stage = 0;
+	int nops = target * (sawtooth ? 5 : 2) + 20 + (int)rndn(r, 40);
+
+	WIDE_ASN = (c / 16) % 2 == 1 ? 600 : 0;
 	uint64_t hh = 0;
 	bool grew = false, shrank = false;
 	int peak = 0;
@@ -992,8 +1008,24 @@ static void run_spki_case(struct rng *r, long c)
 		int rc, want, ix;
 		char key[128];
 		/* phase 1 grows to the target, phase 2 shrinks below 1/8 load, phase 3 mixes */
-		int phase = i < nops / 2 ? 0 : i < (nops * 4) / 5 ? 1 : 2;
-		int p_add = phase == 0 ? 80 : phase == 1 ? 8 : 45;
+		int phase, p_add;
+
+		if (!sawtooth) {
+			/* grow to the target, shrink below 1/8 load, then mix */
+			phase = i < nops / 2 ? 0 : i < (nops * 4) / 5 ? 1 : 2;
+			p_add = phase == 0 ? 80 : phase == 1 ? 8 : 45;
+		} else {
+			/* saw-tooth: grow, shrink only part of the way (the table is still shrinking), grow past the old
+			 * peak, and again: resize steps are crossed in both directions before they finish */
+			static const int goal_pct[] = {100, 15, 115, 12, 100};
+
+			if (KN >= target * goal_pct[saw_stage] / 100 && (saw_stage % 2) == 0 && saw_stage < 4)
+				saw_stage++;
+			else if (KN <= target * goal_pct[saw_stage] / 100 && (saw_stage % 2) == 1)
+				saw_stage++;
+			phase = saw_stage % 2;
+			p_add = phase == 0 ? 92 : 4;
+		}
 		const char *opn;
 
 		if (KN == 0 || (int)k < p_add) {
@@ -1090,6 +1122,50 @@ static void run_spki_case(struct rng *r, long c)
 				K[KN++] = NEWK[j];
 			CNT("c10/copy_swap_diff_cycles");
 			opn = "copy-swap-diff";
+		}
+		if (i % 37 == 36 && KN > 2) {
+			/* copy into a table that already holds some of the keys: duplicates must be rejected, dst stays a set */
+			struct spki_table d2;
+			static struct mkey pre[MAXK], got2[MAXK];
+			int npre = 0, ng2 = 0, s2 = (int)rndn(r, 3);
+
+			spki_table_init(&d2, NULL);
+			for (int j = 0; j < KN && npre < 6; j++) {
+				if (K[j].src != s2 && rndp(r, 1, 3)) {
+					struct spki_record pr;
+
+					key_to_rec(&K[j], &pr);
+					if (spki_table_add_entry(&d2, &pr) == SPKI_SUCCESS)
+						pre[npre++] = K[j];
+				}
+			}
+			(void)spki_table_copy_except_socket(&t, &d2, &SRC[s2]);
+			for (int sk = 0; sk < 5; sk++) {
+				struct spki_record *res = NULL;
+				unsigned int n = 0;
+
+				if (spki_table_search_by_ski(&d2, SKIS[sk], &res, &n) == SPKI_SUCCESS) {
+					for (unsigned int q = 0; q < n && ng2 < MAXK; q++)
+						key_from_rec(&res[q], &got2[ng2++]);
+					lrtr_free(res);
+				}
+			}
+			qsort(got2, (size_t)ng2, sizeof(got2[0]), mkey_cmp);
+			for (int q = 1; q < ng2; q++)
+				if (mkey_eq(&got2[q - 1], &got2[q])) {
+					viol("C10", "C10:copy-creates-duplicate", "spki_table_copy_except_socket into a table that already held %d of the keys left the same key stored twice", npre);
+					break;
+				}
+			for (int q = 0; q < ng2; q++) {
+				bool known = got2[q].src != s2 && kmodel_find(&got2[q]) >= 0;
+
+				if (!known) {
+					viol("C10", "C10:copy-foreign-key", "copy_except_socket produced a key that is neither in the source nor allowed (source %u)", got2[q].src);
+					break;
+				}
+			}
+			CNT("c10/copies_into_nonempty_table");
+			spki_table_free(&d2);
 		}
 		cntf(1, "c10/op/%s", opn);
 		if (rc != want) {
